@@ -215,6 +215,46 @@ fn roundtrip_sweep(rep: &mut Report) {
     }
     rep.evaluations += nf as u64;
     rep.parts.push(json!({"part": "round trip over the run-length stress family (0x00^n, 0xFF^n, (00 FF)^n, a literal at every position, sizes 65534/65535) and long sequences of 1..=140 inputs", "max_n": max_n, "cases": nf}));
+
+    // the codec is a pure function: what one call decoded (or rejected) must not change what the
+    // next call on the same thread returns. Every byte string of <= 2 bytes (and the small members
+    // of the structured family) is decoded first - accepted or rejected - and then five fixed
+    // round trips of different shapes must still come out right, all on one thread.
+    let probes: Vec<(Vec<u8>, Vec<Vec<u8>>)> = vec![
+        (vec![], vec![vec![1u8], vec![2], vec![2], vec![7]]),
+        (vec![0u8; 2], vec![vec![3u8, 4], vec![0, 0], vec![0xFF, 0xFF]]),
+        (vec![0x5A], vec![vec![], vec![9u8; 40], vec![0u8; 70]]),
+        (vec![0xFFu8; 5], vec![vec![0xFFu8; 5]; 12]),
+        (vec![0u8; 5], (0..9u8).map(|i| vec![i, i ^ 0x5A, 0, 0xFF, i.wrapping_mul(31)]).collect()),
+    ];
+    let mut priors: Vec<Vec<u8>> = words(&(0..=255u8).collect::<Vec<u8>>(), 2);
+    priors.extend(structured_family().into_iter().filter(|p| p.len() <= 24 && crate::props::malformed_announced(p) <= 1 << 20));
+    for (r, sq) in &probes {
+        priors.push(encode(r, sq.iter()));
+    }
+    let mut carried = 0u64;
+    let mut first_bad: Option<Finding> = None;
+    for prior in &priors {
+        let _ = catch_unwind(AssertUnwindSafe(|| decode(&[], prior).map(|v| v.len())));
+        for (r, sq) in &probes {
+            carried += 1;
+            if let Err(why) = roundtrip(r, sq) {
+                if first_bad.is_none() {
+                    let mut f = rt_finding(r, sq, &format!("after a call decode([], {prior:02x?}) on the same thread: {why}"), "state-carried-between-calls");
+                    f.replay = json!({"engine": "codec-roundtrip-after", "prior": prior, "reference": r, "inputs": sq});
+                    first_bad = Some(f);
+                }
+            }
+        }
+        if first_bad.is_some() {
+            break;
+        }
+    }
+    if let Some(f) = first_bad {
+        rep.add_finding(f);
+    }
+    rep.evaluations += carried;
+    rep.parts.push(json!({"part": "purity: five fixed round trips after every prior decode call on the same thread", "prior_calls": priors.len(), "round_trips": carried}));
 }
 
 // ---------------------------------------------------------------- totality sweep (children)
